@@ -177,6 +177,10 @@ func (e *Exec) invoke(st *State, fr *Frame, d *Deferred, k contFn, isDefer bool)
 		T := tidTypes[int(tid.LitVal().Int64())]
 		return e.callMethodOn(st, fr, d, T, recv, k, isDefer)
 	}
+	if c, ok := e.db.externs["iface:"+key]; ok {
+		e.usedExt["iface:"+key] = true
+		return e.applyContract(st, fr, d.site, c, nil, append([]Val{recv}, d.args...), k)
+	}
 	if h, ok := externs["iface:"+key]; ok {
 		e.usedExt["iface:"+key] = true
 		return h(e, st, fr, d.site, append([]Val{recv}, d.args...), k)
@@ -248,6 +252,10 @@ func (e *Exec) callFuncValue(st *State, fr *Frame, d *Deferred, f *Term, k contF
 		e.usedCtr["functype "+short] = true
 		return e.applyContract(st, fr, d.site, c, nil, append([]Val{f}, d.args...), k)
 	}
+	if h, ok := externs["functype:"+key]; ok {
+		e.usedExt["functype:"+key] = true
+		return h(e, st, fr, d.site, append([]Val{f}, d.args...), k)
+	}
 	panic(unsupported("call of unknown function value of type " + key))
 }
 
@@ -255,7 +263,7 @@ func (e *Exec) callFuncValue(st *State, fr *Frame, d *Deferred, f *Term, k contF
 
 func (e *Exec) contractVars(c *Contract, fn *ssa.Function, args []Val, pkg *types.Package, ctx *SpecCtx) map[string]*specVar {
 	vs := map[string]*specVar{}
-	if fn != nil {
+	if fn != nil && len(fn.Params) > 0 {
 		for i, p := range fn.Params {
 			vs[p.Name()] = &specVar{v: args[i], t: p.Type()}
 		}
@@ -320,6 +328,16 @@ func (e *Exec) applyContract(st *State, fr *Frame, site ssa.Instruction, c *Cont
 		sig = e.sigOfContract(c, ctx)
 	}
 	declared := e.modOfContract(c, fn)
+	// ghosts assigned by `sets` clauses change exactly as stated there
+	explicit := map[string]bool{}
+	for _, m := range c.Modifies {
+		explicit[m] = true
+	}
+	for _, sc := range c.Sets {
+		if !explicit["G_"+sc.Ghost] {
+			delete(declared, "G!"+sc.Ghost)
+		}
+	}
 	e.havocMod(st, declared)
 	// Heaps the body writes but the contract does not declare are left as they
 	// are: the callee's FRAME obligations show that objects existing before the
@@ -344,7 +362,7 @@ func (e *Exec) applyContract(st *State, fr *Frame, site ssa.Instruction, c *Cont
 	for k, v := range vs {
 		pvs[k] = v
 	}
-	if c.Results != nil && fn == nil {
+	if c.Results != nil {
 		list := []Val{res}
 		if tv, ok := res.(TupleVal); ok {
 			list = tv
@@ -380,11 +398,17 @@ func (e *Exec) applyContract(st *State, fr *Frame, site ssa.Instruction, c *Cont
 		}
 		e.pop()
 	}
+	e.applySets(st, c, post)
 	for _, q := range c.Ensures {
 		e.assume(post.evalBool(q.Expr))
 	}
 	for _, x := range c.Exits {
 		e.assume(post.evalBool(x.Expr))
+	}
+	// vacuity guard: a callee contract that contradicts the state at the call
+	// site would make everything after the call provable
+	if (len(c.Ensures) > 0 || len(c.Sets) > 0) && !e.sol.Feasible() {
+		e.fail(e.siteName(fr, "VACUITY", site, "post-condition of "+cname+" is inconsistent here | "+e.P.srcLine(site.Pos())), "VACUITY", "assuming the callee's post-condition made the path infeasible")
 	}
 	k(st, res)
 	return false
